@@ -84,6 +84,8 @@ declare_class("FastaInfo", fields={"length": INT, "file_offset": INT, "residues_
 # index of the next residue the caller is entitled to read
 declare_class("FastaFH", fields={"pos": INT, "g_info": TRef("FastaInfo"), "g_next": INT})
 declare_class("BytesIO", fields={"g_kind": INT, "g_first": INT, "g_n": INT, "g_pos": INT})
+# a whole record as returned by get_fasta_seq: its name and (ghost) the abstract bytes value it holds
+declare_class("FastaSeq", fields={"name": STR, "g_kind": INT, "g_first": INT, "g_n": INT})
 declare_class(
     "FastaIndex",
     fields={"fasta_fileandle": TRef("FastaFH"), "buffer_size": INT, "index": TDict(STR, TRef("FastaInfo")),
